@@ -127,8 +127,11 @@ theorem stops_7_4 : stops 7 4 = true := by decide
 /-! ### the request loop -/
 
 theorem keep_out (ρ : Nat → ChainRes) (h : (serveRequest ρ).keep = true) : ∃ x, (serveRequest ρ).out = some x := by
-  simp only [serveRequest, aKeepAlive, aCloseDirectly, Bool.and_eq_true, beq_iff_eq] at h ⊢
-  simp [h.1]
+  by_cases hp : (serveHTTP ρ).panicked = true
+  · simp [serveRequest, hp] at h
+  · simp only [serveRequest, hp, Bool.false_eq_true, ↓reduceIte, aKeepAlive, aCloseDirectly, Bool.and_eq_true,
+      beq_iff_eq] at h ⊢
+    simp [h.1.1]
 
 theorem loop_stop (ρ : Nat → ChainRes) (h : (serveRequest ρ).keep = false) (k : Nat) (acc : ConnOut) :
     (serveLoop ρ (k + 1) acc).outs = acc.outs ++ (serveRequest ρ).out.toList ∧
@@ -179,7 +182,7 @@ def GoalReq (m : Nat) (ρ : Nat → ChainRes) : Prop :=
       (reqBytes * (m + 1 - (if (serveRequest ρ).keep then m + 1 else 1))) = none)
 
 theorem conn_of_req (m : Nat) (ρ : Nat → ChainRes) (hA : armFor pAccept (ρ pAccept).ret = none)
-    (h : GoalReq m ρ) : GoalAt (m + 1) ρ := by
+    (hbA : (ρ pAccept).boom = false) (h : GoalReq m ρ) : GoalAt (m + 1) ρ := by
   unfold GoalAt
   have hconn : ∀ (P : List Resp → Nat → Nat → Bool → Prop),
       (∀ acc : ConnOut, acc.outs = [] → acc.backend = 0 → acc.served = 0 → acc.unknown = false →
@@ -188,7 +191,7 @@ theorem conn_of_req (m : Nat) (ρ : Nat → ChainRes) (hA : armFor pAccept (ρ p
       P (serveConnR (m + 1) ρ).outs (serveConnR (m + 1) ρ).backend (serveConnR (m + 1) ρ).served
         (serveConnR (m + 1) ρ).unknown := by
     intro P hP
-    simp only [serveConnR, atPoint, hA]
+    simp only [serveConnR, atPoint, hA, hbA, Bool.false_eq_true, ↓reduceIte]
     exact hP _ rfl rfl rfl rfl
   apply hconn (fun outs backend served unknown => unknown = false ∧
     (divergentStop ρ = false → judgeR (m + 1) ρ outs backend (reqBytes * (m + 1 - served)) = none))
@@ -217,7 +220,7 @@ macro "leaf" : tactic => `(tactic|
 
 /-- one request, arbitrary chain results at every point: no uninterpreted arm, and the documented reaction
     unless the first stopping verdict is one of the divergent rows -/
-theorem req_general (m : Nat) (ρ : Nat → ChainRes) (hA : Quiet 0 (ρ 0).ret)
+theorem req_general (m : Nat) (ρ : Nat → ChainRes) (hA : Quiet 0 (ρ 0).ret) (hb : ∀ pt, (ρ pt).boom = false)
     (hwf : ∀ pt, (pt = 2 ∨ pt = 3 ∨ pt = 4) → (ρ pt).ret = 3 → ∃ j, (ρ pt).res = some j) : GoalReq m ρ := by
   obtain ⟨hA1, hA2⟩ := hA
   have hQ := arm_Q (ρ 7).ret
@@ -247,21 +250,22 @@ theorem req_general (m : Nat) (ρ : Nat → ChainRes) (hA : Quiet 0 (ρ 0).ret)
         · rcases hR with r | r | r | ⟨r1, r2⟩ <;> rcases hQ with q | q | ⟨q1, q2⟩ <;> leaf
 
 
-theorem goal_zero (ρ : Nat → ChainRes) : GoalAt 0 ρ := by
+theorem goal_zero (ρ : Nat → ChainRes) (hb : (ρ 0).boom = false) : GoalAt 0 ρ := by
   rcases arm_A (ρ 0).ret with h | ⟨h1, h2⟩
-  · simp [GoalAt, serveConnR, atPoint, h, armFor_0_4, interp, judgeR, pAccept]
-  · simp [GoalAt, serveConnR, atPoint, h1, serveLoop, judgeR, pAccept]
+  · simp [GoalAt, serveConnR, atPoint, h, hb, armFor_0_4, interp, judgeR, pAccept]
+  · simp [GoalAt, serveConnR, atPoint, h1, hb, serveLoop, judgeR, pAccept]
 
-theorem goal_accept_close (m : Nat) (ρ : Nat → ChainRes) (h : (ρ 0).ret = 4) : GoalAt (m + 1) ρ := by
-  simp [GoalAt, serveConnR, atPoint, h, armFor_0_4, interp, judgeR, firstStopR, path, stops_0_4, pAccept, reqBytes]
+theorem goal_accept_close (m : Nat) (ρ : Nat → ChainRes) (hb : (ρ 0).boom = false) (h : (ρ 0).ret = 4) :
+    GoalAt (m + 1) ρ := by
+  simp [GoalAt, serveConnR, atPoint, h, hb, armFor_0_4, interp, judgeR, firstStopR, path, stops_0_4, pAccept, reqBytes]
 
-theorem goal_all (n : Nat) (ρ : Nat → ChainRes)
+theorem goal_all (n : Nat) (ρ : Nat → ChainRes) (hb : ∀ pt, (ρ pt).boom = false)
     (hwf : ∀ pt, (pt = 2 ∨ pt = 3 ∨ pt = 4) → (ρ pt).ret = 3 → ∃ j, (ρ pt).res = some j) : GoalAt n ρ := by
   cases n with
-  | zero => exact goal_zero ρ
+  | zero => exact goal_zero ρ (hb 0)
   | succ m =>
     rcases arm_A (ρ 0).ret with h | h
-    · exact goal_accept_close m ρ h
-    · exact conn_of_req m ρ h.1 (req_general m ρ h hwf)
+    · exact goal_accept_close m ρ (hb 0) h
+    · exact conn_of_req m ρ h.1 (hb 0) (req_general m ρ h hb hwf)
 
 end BfeVerif.C48
